@@ -328,7 +328,13 @@ pub fn gen_dataset(r: &mut Rng, shape: usize, big: bool) -> Vec<Q> {
                 v.push(e(b(r.below(n)), P, b(r.below(n))));
             }
             let bad: Q = match r.below(7) {
-                6 => { v.push(([b(0), lit_dt("p", &format!("{XSD}string")), b(1)], None)); ([b(1), lit_dt("p", &format!("{XSD}string")), b(0)], None) }
+                6 => {
+                    // generalized RDF: a literal as predicate (outside the property; no quad mentioning a node twice,
+                    // so that the outcome is the same before and after the repairs)
+                    v.retain(|q| { let bl = q_blanks(q); bl.iter().collect::<BTreeSet<_>>().len() == bl.len() });
+                    v.push(([b(0), lit_dt("p", &format!("{XSD}string")), b(1)], None));
+                    ([b(1), lit_dt("p", &format!("{XSD}string")), b(0)], None)
+                }
                 0 => ([b(0), bnode("pred"), b(1)], None),
                 1 => ([var("v"), iri(P), b(0)], None),
                 2 => ([b(0), iri(P), triple(b(0), iri(P), b(1))], None),
@@ -451,7 +457,7 @@ pub fn run_impl(quads: &[Q], store: usize, sha384: bool, df: f32, pl: usize) -> 
 // algorithm), 4.5 (issue identifier), 4.6 (hash first degree quads), 4.7 (hash related blank
 // node), 4.8 (hash n-degree quads) and of the canonical N-Quads form.  Plain strings, no sophia
 // code except the hash function.  Orders the text leaves open: blank nodes are visited in label
-// order, permutations in lexicographic order of positions, ties of step 5.3 keep list order.
+// order, permutations in the order of Heap's algorithm as sophia runs it, ties of step 5.3 keep list order.
 #[derive(Clone)]
 pub struct SIssuer {
     prefix: String,
@@ -546,6 +552,26 @@ fn lex_perms(n: usize) -> Vec<Vec<usize>> {
     go(n, &mut vec![], &mut out);
     out
 }
+/// the enumeration order of "each permutation" is left open by the specification; to compare issued
+/// identifiers exactly the transcription takes the order sophia uses (Heap's algorithm with a swap after
+/// every recursive call, as in c14n/src/_permutations.rs), re-implemented here on positions
+fn heap_order_perms(n: usize) -> Vec<Vec<usize>> {
+    fn go(a: &mut Vec<usize>, size: usize, out: &mut Vec<Vec<usize>>) {
+        if size == 1 {
+            out.push(a.clone());
+            return;
+        }
+        for i in 0..size {
+            go(a, size - 1, out);
+            if size % 2 == 1 { a.swap(0, size - 1) } else { a.swap(i, size - 1) }
+        }
+    }
+    let mut out = vec![];
+    if n > 0 {
+        go(&mut (0..n).collect(), n, &mut out);
+    }
+    out
+}
 impl Spec<'_> {
     /// 4.6
     fn hash_first_degree(&self, reference: &str) -> String {
@@ -595,7 +621,7 @@ impl Spec<'_> {
             let mut chosen_path = String::new();
             let mut chosen_issuer: Option<SIssuer> = None;
             self.max_list = self.max_list.max(blank_node_list.len());
-            'perm: for perm in lex_perms(blank_node_list.len()) {
+            'perm: for perm in heap_order_perms(blank_node_list.len()) {
                 let p: Vec<&String> = perm.iter().map(|&i| &blank_node_list[i]).collect();
                 let mut issuer_copy = issuer.clone();
                 let mut path = String::new();
@@ -796,7 +822,8 @@ fn check_one(tag: &str, d: &[Q], order: &[Q], out: &Outcome, spec: &Result<SpecO
             if mapped != got { fails.push(format!("{tag}: applying the identifier map to the input gives {mapped:?} but the returned quads are {got:?}")); }
             // (d) equality with the independent transcription of the W3C text
             match spec {
-                Ok(s) if s.bytes == out.bytes => {}
+                Ok(s) if s.bytes == out.bytes && s.idmap.iter().map(|(k, v)| (k.clone(), v.clone())).collect::<Vec<_>>() == out.idmap => {}
+                Ok(s) if s.bytes == out.bytes => fails.push(format!("{tag}: issued identifiers differ from RDFC-1.0 as transcribed from the W3C text (same permutation and node orders){}: got {:?}, specification gives {:?}", if has_repeat(d) { " (the dataset has a quad mentioning one blank node twice)" } else { "" }, out.idmap, s.idmap)),
                 Ok(s) => fails.push(format!("{tag}: output differs from RDFC-1.0 as transcribed from the W3C text{}: got {:?}, specification gives {:?}", if has_repeat(d) { " (the dataset has a quad mentioning one blank node twice)" } else if nb > 10 { " (the dataset has more than ten blank nodes: temporary identifiers _:b9 / _:b10 give paths of different lengths, and smaller_path prefers the shorter one instead of the one that is first in code point order)" } else { "" }, out.bytes, s.bytes)),
                 Err(e) => fails.push(format!("{tag}: canonicalisation succeeded on input outside RDFC-1.0 ({e})")),
             }
